@@ -5,7 +5,8 @@
 (*   r, n, sel  rows, workers, selected ids                                *)
 (*   ev         the queue operations, starts and joins in the order they   *)
 (*              happened, each named after the spec action it must be:     *)
-(*              ["CPeekYield", r] ["CPeekEnd"] ["CStart"] ["PPut", r]      *)
+(*              ["CPeekYield", r] ["CPeekEnd"] ["CStart"] ["CFork", w]     *)
+(*              ["CStartF"] ["PPut", r]                                    *)
 (*              ["PMarker"] ["FeedIn", v] ["WGet", w, v] ["WPut", w, v]    *)
 (*              ["WExit", w] ["FeedOut", w, v] ["FGet", v] ["FFwd", v]     *)
 (*              ["FEnd"] ["CGet", v] ["CJoinProd"] ["CJoinW", w] ["CJoinF"]*)
@@ -39,6 +40,8 @@ Step == \/ Is("CPeekYield") /\ CPeekYield /\ nextIn = E[2]
         \/ Is("CPeekEnd") /\ CPeekEnd
         \/ Is("CPeekFail") /\ CPeekFail
         \/ Is("CStart") /\ CStart
+        \/ Is("CFork") /\ CFork /\ nf = E[2]
+        \/ Is("CStartF") /\ CStartF
         \/ Is("PPut") /\ PPut /\ nextIn = E[2]
         \/ Is("PMarker") /\ PMarker
         \/ Is("FeedIn") /\ FeedIn /\ Head(pbuf) = E[2]
